@@ -232,6 +232,8 @@ impl<T: Send + 'static> ReadyPipeQueue<T> {
   }
 
   pub fn deregister_pipe(&self, pipe_id: usize) {
+    #[cfg(rzmq_verif)]
+    crate::verif::sched::point("rpq.deregister");
     self.pipes.write().remove(&pipe_id);
   }
 
@@ -244,12 +246,22 @@ impl<T: Send + 'static> ReadyPipeQueue<T> {
         }
       };
 
+      #[cfg(rzmq_verif)]
+      crate::verif::sched::point("rpq.pop.got_ready");
       match slot.rx.try_recv() {
         Ok(item) => {
+          #[cfg(rzmq_verif)]
+          crate::verif::sched::point("rpq.pop.taken");
           let prev = slot.queued_count.fetch_sub(1, Ordering::AcqRel);
+          #[cfg(rzmq_verif)]
+          crate::verif::sched::point("rpq.pop.dec_queued");
           slot.reserved_count.fetch_sub(1, Ordering::AcqRel);
+          #[cfg(rzmq_verif)]
+          crate::verif::sched::point("rpq.pop.dec_reserved");
           debug_assert!(prev > 0);
           audit_slot(&slot, "pop");
+          #[cfg(rzmq_verif)]
+          crate::verif::sched::point("rpq.pop.rearm");
 
           if prev > 1 {
             cancel_guard!(guard, "ReadyPipeQueue::pop → ready_tx.send");
@@ -299,12 +311,22 @@ impl<T: Send + 'static> ReadyPipeQueue<T> {
         Err(_) => return None,
       };
 
+      #[cfg(rzmq_verif)]
+      crate::verif::sched::point("rpq.try_pop.got_ready");
       match slot.rx.try_recv() {
         Ok(item) => {
+          #[cfg(rzmq_verif)]
+          crate::verif::sched::point("rpq.try_pop.taken");
           let prev = slot.queued_count.fetch_sub(1, Ordering::AcqRel);
+          #[cfg(rzmq_verif)]
+          crate::verif::sched::point("rpq.try_pop.dec_queued");
           slot.reserved_count.fetch_sub(1, Ordering::AcqRel);
+          #[cfg(rzmq_verif)]
+          crate::verif::sched::point("rpq.try_pop.dec_reserved");
           debug_assert!(prev > 0);
           audit_slot(&slot, "try_pop");
+          #[cfg(rzmq_verif)]
+          crate::verif::sched::point("rpq.try_pop.rearm");
 
           if prev > 1 {
             let _ = self.ready_tx.try_send(Arc::clone(&slot));
@@ -343,6 +365,8 @@ impl<T: Send + 'static> ReadyPipeQueue<T> {
 
   pub fn close(&self) {
     self.pipes.write().clear();
+    #[cfg(rzmq_verif)]
+    crate::verif::sched::point("rpq.close.cleared");
     self.ready_tx.close();
   }
 }
@@ -372,6 +396,8 @@ impl<T: Send + 'static> ReadyPipeSender<T> {
     // If this future is dropped (tokio::select! picks another branch),
     // the guard's Drop rolls back reserved_count — no leak.
     let mut reservation = SendReservation::new(Arc::clone(&slot));
+    #[cfg(rzmq_verif)]
+    crate::verif::sched::point("rpq.send.reserved");
 
     match slot.tx.try_send(item) {
       Ok(()) => {}
@@ -389,8 +415,12 @@ impl<T: Send + 'static> ReadyPipeSender<T> {
 
     // Message is committed to the channel. Seal the reservation so Drop
     // does not roll it back; the consumer's pop() will release it instead.
+    #[cfg(rzmq_verif)]
+    crate::verif::sched::point("rpq.send.written");
     let prev = slot.queued_count.fetch_add(1, Ordering::AcqRel);
     reservation.commit();
+    #[cfg(rzmq_verif)]
+    crate::verif::sched::point("rpq.send.counted");
 
     if prev == 0 {
       cancel_guard!(cd, "ReadyPipeSender::send → ready_tx.send");
@@ -414,11 +444,17 @@ impl<T: Send + 'static> ReadyPipeSender<T> {
 
     let mut reservation = SendReservation::new(Arc::clone(&slot));
 
+    #[cfg(rzmq_verif)]
+    crate::verif::sched::point("rpq.try_send.reserved");
     // If this returns an error, the reservation is dropped (rolled back).
     slot.tx.try_send(item)?;
+    #[cfg(rzmq_verif)]
+    crate::verif::sched::point("rpq.try_send.written");
 
     let prev = slot.queued_count.fetch_add(1, Ordering::AcqRel);
     reservation.commit();
+    #[cfg(rzmq_verif)]
+    crate::verif::sched::point("rpq.try_send.counted");
 
     if prev == 0 {
       // 0→1 transition: ready queue capacity must be >= max registered
@@ -427,6 +463,8 @@ impl<T: Send + 'static> ReadyPipeSender<T> {
       while let Err(e) = self.ready_tx.try_send(Arc::clone(&slot)) {
         spins += 1;
         log_rpq_spin_deadlock!(spins, "try_send spinning", e);
+        #[cfg(rzmq_verif)]
+        crate::verif::sched::spin("rpq.try_send.spin");
         std::thread::yield_now();
       }
     }
@@ -455,6 +493,8 @@ impl<T: Send + 'static> ReadyPipeSender<T> {
 
     // Bulk reservation upfront — one atomic instead of N.
     slot.reserved_count.fetch_add(n, Ordering::AcqRel);
+    #[cfg(rzmq_verif)]
+    crate::verif::sched::point("rpq.batch.reserved");
 
     let mut sent_batches = 0usize;
     let mut total_weight = 0usize;
@@ -466,9 +506,13 @@ impl<T: Send + 'static> ReadyPipeSender<T> {
         Ok(()) => {
           sent_batches += 1;
           total_weight += weight;
+          #[cfg(rzmq_verif)]
+          crate::verif::sched::point("rpq.batch.written");
           // Inline increment — consumer may pop the item before the batch ends;
           // updating immediately keeps queued_count >= physical channel occupancy.
           let prev = slot.queued_count.fetch_add(1, Ordering::AcqRel);
+          #[cfg(rzmq_verif)]
+          crate::verif::sched::point("rpq.batch.counted");
           if prev == 0 {
             had_zero_transition = true;
           }
@@ -490,6 +534,8 @@ impl<T: Send + 'static> ReadyPipeSender<T> {
       slot
         .reserved_count
         .fetch_sub(n - sent_batches, Ordering::AcqRel);
+      #[cfg(rzmq_verif)]
+      crate::verif::sched::point("rpq.batch.rolled_back");
     }
 
     // Guaranteed wakeup on 0→1 transition. ready_capacity >= max registered
@@ -499,6 +545,8 @@ impl<T: Send + 'static> ReadyPipeSender<T> {
       while let Err(e) = self.ready_tx.try_send(Arc::clone(&slot)) {
         spins += 1;
         log_rpq_spin_deadlock!(spins, "try_send_batch spinning on ready_tx", e);
+        #[cfg(rzmq_verif)]
+        crate::verif::sched::spin("rpq.batch.spin");
         std::thread::yield_now();
       }
     }
@@ -637,6 +685,8 @@ impl PipeMessageSender {
         };
 
         slot.reserved_count.fetch_add(match_count, Ordering::AcqRel);
+        #[cfg(rzmq_verif)]
+        crate::verif::sched::point("rpq.fbatch.reserved");
 
         let mut sent_batches = 0usize;
         let mut total_frames = 0usize;
@@ -650,7 +700,11 @@ impl PipeMessageSender {
               Ok(()) => {
                 sent_batches += 1;
                 total_frames += frame_count;
+                #[cfg(rzmq_verif)]
+                crate::verif::sched::point("rpq.fbatch.written");
                 let prev = slot.queued_count.fetch_add(1, Ordering::AcqRel);
+                #[cfg(rzmq_verif)]
+                crate::verif::sched::point("rpq.fbatch.counted");
                 if prev == 0 {
                   had_zero_transition = true;
                 }
@@ -682,6 +736,8 @@ impl PipeMessageSender {
           while let Err(e) = sender.ready_tx.try_send(Arc::clone(&slot)) {
             spins += 1;
             log_rpq_spin_deadlock!(spins, "try_send_batch filtered spinning", e);
+            #[cfg(rzmq_verif)]
+            crate::verif::sched::spin("rpq.fbatch.spin");
             std::thread::yield_now();
           }
         }
